@@ -66,6 +66,8 @@ func (c *Config) load(configPath string, isGlobal bool) error {
 	var ident string
 	buf := bytes.NewReader(b)
 	scanner := bufio.NewScanner(buf)
+	// no line is longer than the file: a value above the scanner's default 64 KiB must not end the reading
+	scanner.Buffer(nil, len(b)+1)
 	for scanner.Scan() {
 		text := scanner.Text()
 		if identRegexp.MatchString(text) {
